@@ -116,15 +116,15 @@ structure PatIds (c : Cfg ε) (a b : PatAcc ε) : Prop where
   next : a.nextId ≤ b.nextId
   lists : ∃ dh du, b.hc = a.hc ++ dh ∧ b.upd = a.upd ++ du ∧
     (∀ x ∈ dh ++ du, ∃ k, a.nextId ≤ k ∧ k < b.nextId ∧ x.id = c.idOf k) ∧
-    (∀ x ∈ dh, ∀ y ∈ du, x.id ≠ y.id) ∧ (du.map (·.id)).Nodup
+    (∀ x ∈ dh, ∀ y ∈ du, x.id ≠ y.id) ∧ (du.map (·.id)).Nodup ∧ (dh.map (·.id)).Nodup
 
 theorem PatIds.refl (c : Cfg ε) (a : PatAcc ε) : PatIds c a a :=
-  ⟨Nat.le_refl _, [], [], by simp, by simp, by simp, by simp, by simp⟩
+  ⟨Nat.le_refl _, [], [], by simp, by simp, by simp, by simp, by simp, by simp⟩
 
 theorem PatIds.trans {c : Cfg ε} (hinj : ∀ i j, c.idOf i = c.idOf j → i = j) {a b d : PatAcc ε}
     (h1 : PatIds c a b) (h2 : PatIds c b d) : PatIds c a d := by
-  obtain ⟨dh1, du1, e1, f1, r1, s1, n1⟩ := h1.lists
-  obtain ⟨dh2, du2, e2, f2, r2, s2, n2⟩ := h2.lists
+  obtain ⟨dh1, du1, e1, f1, r1, s1, n1, m1⟩ := h1.lists
+  obtain ⟨dh2, du2, e2, f2, r2, s2, n2, m2⟩ := h2.lists
   have hn1 := h1.next
   have hn2 := h2.next
   -- ranges: first stretch below b.nextId, second at or above
@@ -137,7 +137,7 @@ theorem PatIds.trans {c : Cfg ε} (hinj : ∀ i j, c.idOf i = c.idOf j → i = j
     have := hinj k k' (by rw [← ek, ← ek', hxy])
     omega
   refine ⟨Nat.le_trans hn1 hn2, dh1 ++ dh2, du1 ++ du2, by rw [e2, e1, List.append_assoc],
-    by rw [f2, f1, List.append_assoc], ?_, ?_, ?_⟩
+    by rw [f2, f1, List.append_assoc], ?_, ?_, ?_, ?_⟩
   · intro x hx
     have : x ∈ dh1 ++ du1 ∨ x ∈ dh2 ++ du2 := by
       simp only [List.mem_append] at hx ⊢
@@ -161,6 +161,12 @@ theorem PatIds.trans {c : Cfg ε} (hinj : ∀ i j, c.idOf i = c.idOf j → i = j
     obtain ⟨x, hx, ex⟩ := List.mem_map.mp hi1
     obtain ⟨y, hy, ey⟩ := List.mem_map.mp hj2
     exact cross x (List.mem_append.mpr (.inr hx)) y (List.mem_append.mpr (.inr hy)) (by rw [ex, ey, hij])
+  · rw [List.map_append, List.nodup_append]
+    refine ⟨m1, m2, ?_⟩
+    intro i hi1 j hj2 hij
+    obtain ⟨x, hx, ex⟩ := List.mem_map.mp hi1
+    obtain ⟨y, hy, ey⟩ := List.mem_map.mp hj2
+    exact cross x (List.mem_append.mpr (.inl hx)) y (List.mem_append.mpr (.inl hy)) (by rw [ex, ey, hij])
 
 theorem checkPattern_ids (c : Cfg ε) (e : ε) (ph0 : String) (acc acc' : PatAcc ε) (p : Pattern ε)
     (hs : checkPattern c e ph0 acc p = some acc') : PatIds c acc acc' := by
@@ -173,7 +179,7 @@ theorem checkPattern_ids (c : Cfg ε) (e : ε) (ph0 : String) (acc acc' : PatAcc
     · simp only [hm, if_true] at hs
       split at hs
       · simp only [Option.some.injEq] at hs; subst hs
-        refine ⟨Nat.le_succ _, [_], [], rfl, by simp, ?_, by simp, by simp⟩
+        refine ⟨Nat.le_succ _, [_], [], rfl, by simp, ?_, by simp, by simp, by simp⟩
         intro x hx
         simp only [List.append_nil, List.mem_singleton] at hx
         subst hx
@@ -184,13 +190,13 @@ theorem checkPattern_ids (c : Cfg ε) (e : ε) (ph0 : String) (acc acc' : PatAcc
           | some t' =>
             simp only [hadd, Option.some.injEq] at hs
             subst hs
-            refine ⟨Nat.le_succ _, [], [_], by simp, rfl, ?_, by simp, by simp⟩
+            refine ⟨Nat.le_succ _, [], [_], by simp, rfl, ?_, by simp, by simp, by simp⟩
             intro x hx
             simp only [List.nil_append, List.mem_singleton] at hx
             subst hx
             exact ⟨acc.nextId, Nat.le_refl _, Nat.lt_succ_self _, rfl⟩
         · simp only [Option.some.injEq] at hs; subst hs
-          exact ⟨Nat.le_succ _, [], [], by simp, by simp, by simp, by simp, by simp⟩
+          exact ⟨Nat.le_succ _, [], [], by simp, by simp, by simp, by simp, by simp, by simp⟩
     · simp only [hm, Bool.false_eq_true, if_false, Option.some.injEq] at hs
       subst hs; exact PatIds.refl c _
 
